@@ -33,7 +33,7 @@ func famKnown(c *Ctx) {
 	if sel == "" || sel == "C23" {
 		knownDurationJSON(c, c.N/2)
 		knownFieldMaskJSON(c, c.N/4)
-		// knownTimestampJSON(c, c.N/4)
+		knownTimestampJSON(c, c.N/4)
 	}
 	if sel == "" || sel == "C44" {
 		knownFieldMaskAlgebra(c, c.N/2)
